@@ -28,8 +28,12 @@ OtherKinds == {"ddl_create_type", "ddl_alter", "start_migration", "populate_migr
                "configure_session", "reset_session", "set_alias", "set_module",
                "configure_database", "configure_instance", "describe", "select_only"}
 
+\* SET GLOBAL takes an arbitrary expression: it is a session command AND
+\* whatever its value expression does
 Stmts == [kind : {"query"}, leaf : Leaves, ctx : Contexts]
          \cup [kind : OtherKinds, leaf : {"none"}, ctx : {"top"}]
+         \cup [kind : {"set_global"}, leaf : Leaves,
+                ctx : {"func_arg", "with_binding", "for_body", "if_branch"}]
 
 VARIABLES script   \* sequence of 1..2 statements
 vars == <<script>>
@@ -40,7 +44,7 @@ Init == \/ \E s \in Stmts : script = <<s>>
 Next == UNCHANGED vars
 Spec == Init /\ [][Next]_vars
 
-Writes(s) == s.kind = "query" /\ s.leaf # "none"
+Writes(s) == s.kind \in {"query", "set_global"} /\ s.leaf # "none"
 
 CapsOf(s) ==
     (IF Writes(s) THEN {"MODIFICATIONS"} ELSE {})
@@ -48,7 +52,8 @@ CapsOf(s) ==
                          "commit_migration", "abort_migration"} THEN {"DDL"} ELSE {})
     \cup (IF s.kind \in {"start_tx", "commit", "rollback", "declare_savepoint",
                          "release_savepoint", "rollback_to_savepoint"} THEN {"TRANSACTION"} ELSE {})
-    \cup (IF s.kind \in {"configure_session", "reset_session", "set_alias", "set_module"}
+    \cup (IF s.kind \in {"configure_session", "reset_session", "set_alias", "set_module",
+                         "set_global"}
           THEN {"SESSION_CONFIG"} ELSE {})
     \cup (IF s.kind \in {"configure_database", "configure_instance"}
           THEN {"PERSISTENT_CONFIG"} ELSE {})
